@@ -142,6 +142,21 @@ def _shown(c, text, pos):
 HUGE = [10 ** 5000, [10 ** 5000], {'a': -10 ** 5000}, (1, 10 ** 5000)]     # values whose str() raises (int str-digits limit)
 
 
+def _components(node, depth=0):
+    """Keys of every product child anywhere below `node` (the path components a message has to name)."""
+    out = []
+    ch = getattr(node, 'children', None)
+    if isinstance(ch, dict):
+        for k, c in ch.items():
+            out.append(k)
+            if depth < 6:
+                out.extend(_components(c, depth + 1))
+    elif isinstance(ch, (list, tuple)) and depth < 6:
+        for c in ch:
+            out.extend(_components(c, depth + 1))
+    return out
+
+
 def values_c08(ast, tier):
     return e1.values_for(ast, tier) + HUGE
 
@@ -205,6 +220,23 @@ def judge(ctx, ast, sp, T, vi, v):
                 if str(nm) not in text:
                     problem = f"{what} {nm!r} (per the field table) is not named"
                     break
+    if not problem and not isinstance(ast, str) and ast[0] in ('union', 'optional'):
+        # compositional completeness: every alternative of a union failed, each for its own reasons - the path components under
+        # which the member ALONE reports its failures must all be named in the union's message
+        import typing
+        for M in (typing.get_args(T) if typing.get_origin(T) is typing.Union else ()):
+            try:
+                pane.from_data(values.fresh(v), M)
+                continue
+            except ConvertError as em:
+                comps = _components(em.tree)
+            except Exception:  # noqa
+                continue
+            res['transitions'] += 1
+            missing_c = [c for c in comps if find_component(text, c, 0) < 0]
+            if missing_c:
+                problem = f"failing path component {missing_c[0]!r} of the alternative {getattr(M, '__name__', M)!r} is not named"
+                break
     if problem:
         core.add_violation(res, {'kind': 'incomplete_text', 'what': problem.split('(')[0].split("'")[0].strip()[:40],
                                  'shape': shp[:30]},
